@@ -1,6 +1,8 @@
 // drv_status: C16 - the status tracker equals a per-device, per-interface latest-message map.
 // Exhaustive depth-first exploration of all operation sequences up to a bound on copies of the real Status
 // object, every node compared with a reference map; plus long random sequences. ASan + UBSan flavour.
+#define VF_FAILPOINT_IMPL
+#include "failpoint.h"
 #include <map>
 
 #include <asam_cmp/can_payload.h>
@@ -150,7 +152,28 @@ Packet viaWire(const Packet& p, size_t max)
     return out ? *out : p;
 }
 
-void apply(Status& st, Model& m, const Op& o, uint64_t ts)
+// failAlloc >= 0: that allocation of the update call fails; an update left by std::bad_alloc never happened as far as the model
+// is concerned (returns false), one that completes counts like any other
+bool updateMaybeCutShort(Status& st, const Packet& p, long failAlloc)
+{
+    if (failAlloc < 0)
+    {
+        st.update(p);
+        return true;
+    }
+    vf::fp::FailAt f(failAlloc);
+    try
+    {
+        st.update(p);
+    }
+    catch (const std::bad_alloc&)
+    {
+        return false;
+    }
+    return true;
+}
+
+bool apply(Status& st, Model& m, const Op& o, uint64_t ts, long failAlloc = -1)
 {
     uint16_t dev = kDevs[o.d];
     switch (o.kind)
@@ -160,7 +183,8 @@ void apply(Status& st, Model& m, const Op& o, uint64_t ts)
             Packet p = cmPacket(dev, ts);
             if (ts % 5 == 2)
                 p = viaWire(p, ts % 2 ? 64 : 1500);
-            st.update(p);
+            if (!updateMaybeCutShort(st, p, failAlloc))
+                return false;
             m[dev].cm = snapPacket(p);
             break;
         }
@@ -169,7 +193,8 @@ void apply(Status& st, Model& m, const Op& o, uint64_t ts)
             Packet p = ifPacket(dev, kIfs[o.i], ts);
             if (ts % 5 == 3)
                 p = viaWire(p, ts % 2 ? 64 : 1500);
-            st.update(p);
+            if (!updateMaybeCutShort(st, p, failAlloc))
+                return false;
             auto it = m.find(dev);
             if (it != m.end())
                 it->second.ifs[kIfs[o.i]] = snapPacket(p);
@@ -200,6 +225,7 @@ void apply(Status& st, Model& m, const Op& o, uint64_t ts)
             m.clear();
             break;
     }
+    return true;
 }
 
 uint64_t modelHash(const Model& m)
@@ -361,6 +387,18 @@ void randomCase(Ctx& c, long idx)
         path += opName(A[k]) + "; ";
         c.note(path);
         uint64_t before = modelHash(m);
+        if (A[k].kind <= 1 && r.chance(1, 8))
+        {
+            // the update is cut short by an allocation failure (one of its first allocations): it either never happened or
+            // happened completely - a tracker that is left with half an entry answers neither way
+            long at = static_cast<long>(r.below(6));
+            bool done = apply(st, m, A[k], static_cast<uint64_t>(idx) * 1000 + static_cast<uint64_t>(i) + 1, at);
+            path += done ? "[allocation failpoint not reached]; " : "[cut short by std::bad_alloc at allocation " + std::to_string(at) + "]; ";
+            c.count(done ? "updates_whose_failpoint_was_not_reached" : "updates_cut_short_by_an_allocation_failure");
+            compare(c, st, m, path);
+            c.sig(mix64(before, k + 1000));
+            continue;
+        }
         apply(st, m, A[k], static_cast<uint64_t>(idx) * 1000 + static_cast<uint64_t>(i) + 1);
         compare(c, st, m, path);
         c.sig(mix64(before, k));
